@@ -7,7 +7,7 @@
     [go_sized shards] says that every member list has fewer than 2^63 entries (Go's [len] is an
     [int]); it is not a bound on the inputs that can occur. *)
 From stdpp Require Import gmap.
-From Drummer.Model Require Import Base DB Launch.
+From Drummer.Model Require Import Base DB Launch LaunchRun.
 From Drummer.Proofs Require Import LaunchProofs.
 Local Open Scope N_scope.
 
@@ -93,6 +93,20 @@ Theorem C08_live_future : forall ttl tick h,
   ~ host_live ttl tick h.
 Proof. exact host_live_future. Qed.
 Print Assumptions C08_live_future.
+
+(** 7. The executable tests used by the correspondence check (LaunchRun.v) to decide whether an
+       observed outcome is one the specification allows: [must_refuseb] decides [must_refuse], and a
+       plan accepted by [blocks_okb true] satisfies the conclusion of C08_valid. *)
+Theorem C08_must_refuse_decided : forall ttl tick fleet shards regs,
+  must_refuseb ttl tick fleet shards regs = true <-> must_refuse ttl tick fleet shards regs.
+Proof. exact must_refuseb_spec. Qed.
+Print Assumptions C08_must_refuse_decided.
+
+Theorem C08_allowed_plan_sound : forall ttl tick fleet r shards qs,
+  blocks_okb true ttl tick fleet r shards qs = true ->
+  exists blocks, qs = concat blocks /\ Forall2 (shard_block_ok ttl tick fleet r) shards blocks.
+Proof. exact blocks_okb_sound. Qed.
+Print Assumptions C08_allowed_plan_sound.
 
 (** * Non-vacuity *)
 
@@ -227,4 +241,18 @@ Example ex_validate :
   validate_request (rq 8 [31; 32] [3; 0] 31 3) = false /\
   validate_request (rq 8 [31; 32] [3; 4] 0 3) = false /\
   validate_request (mkReq RCreate 8 [31] 0 [31] [3] 31 3 false false 0) = false.
+Proof. vm_compute. repeat split; reflexivity. Qed.
+
+(** the executable "allowed" test accepts the model's own plan, another placement for the same
+    inputs (members swapped over the hosts), and rejects a plan with both members on one host *)
+Example ex_allowed :
+  allowed 60 100 ex_fleet [mkSD 8 [31; 32] 9] (Some (mkRegions [3] [2]))
+          (Plan [rq 8 [31; 32] [3; 4] 31 3; rq 8 [31; 32] [3; 4] 32 4]) = true /\
+  allowed 60 100 ex_fleet [mkSD 8 [31; 32] 9] (Some (mkRegions [3] [2]))
+          (Plan [rq 8 [31; 32] [4; 3] 31 4; rq 8 [31; 32] [4; 3] 32 3]) = true /\
+  allowed 60 100 ex_fleet [mkSD 8 [31; 32] 9] (Some (mkRegions [3] [2]))
+          (Plan [rq 8 [31; 32] [3; 3] 31 3; rq 8 [31; 32] [3; 3] 32 3]) = false /\
+  allowed 60 100 ex_fleet [mkSD 8 [31; 32] 9] (Some (mkRegions [3] [2])) Refused = false /\
+  allowed 60 100 ex_fleet [mkSD 8 [31; 32; 33] 9] (Some (mkRegions [3] [3])) Refused = true /\
+  allowed 60 100 ex_fleet [mkSD 8 [31; 32] 9] (Some (mkRegions [3] [2])) (Plan [rq 8 [31; 32] [3; 5] 31 3; rq 8 [31; 32] [3; 5] 32 5]) = false.
 Proof. vm_compute. repeat split; reflexivity. Qed.
